@@ -120,6 +120,9 @@ def arg_for(fname, i, pn, pt, writer):
     if t == "double":
         if fname.startswith("cgio_"):
             v = {"pid": "g_node", "id": "g_node2", "new_pid": "g_root", "id_inp": "g_node2", "id_out": "g_node", "InputID": "g_node2"}.get(pn, "g_node2")
+            if pn == "pid" and fname in ("cgio_delete_node", "cgio_move_node", "cgio_set_name"):
+                # the node named by id (the first child of the base) is not a child of the root
+                return v, "cgioid", [("pid-not-the-parent", "g_root", 1)]
             return v, "cgioid", []
         return "1.0", "double", []
     if t == "float":
